@@ -63,10 +63,6 @@ Lemma cw_prefix_criterion_differs :
 Proof. repeat split; reflexivity. Qed.
 
 (* ---------------------------------------------------------------- the stages of the other packages *)
-Definition cw_wcreate (w : cw_world) ty full nc content o : cw_world * cw_res :=
-  let '(st', r) := cw_create (ww_store w) ty full nc content o in ({| ww_store := st'; ww_foreign := ww_foreign w |}, r).
-Definition cw_wdelete (w : cw_world) k cascade : cw_world * cw_res :=
-  let '(st', r) := cw_delete (ww_store w) k cascade in ({| ww_store := st'; ww_foreign := ww_foreign w |}, r).
 
 (* an object deployed through another package (name <> _api): refused, and the WHOLE world - the three stores, the files of
    `_api`, the files of every other package - is what it was *)
